@@ -119,7 +119,7 @@ std::vector<Item> gen_block(vf::Stream& s, unsigned depth, uint64_t budget, bool
             if (it.source == 0)
                 it.count &= 0xFF;
             b.push_back(it);
-        } else if (r < 4 && !last) {
+        } else if (r < 4) { // incl. as the last item of a block: the repeated instruction is then the block's last instruction
             Item it;
             it.kind = Item::Rep;
             it.words = safe_instr(s, true);
@@ -321,6 +321,14 @@ vf::Result check_unroll(const Prog& p) {
         vf::klass("large count (>= 255) with a tiny body");
     if (desc.find("I2 }") != std::string::npos)
         vf::klass("two-word last instruction in a block");
+    for (size_t at = desc.find("} "); at != std::string::npos; at = desc.find("} ", at + 1)) {
+        size_t b = at >= 2 ? desc.rfind(' ', at - 2) : std::string::npos; // start of the token before "} "
+        b = b == std::string::npos ? 0 : b + 1;
+        if (desc.compare(b, 3, "rep") == 0) {
+            vf::klass("repeated instruction is the last instruction of a block");
+            break;
+        }
+    }
     if (desc.find("rep0 ") != std::string::npos || desc.find("bkrep0{") != std::string::npos || desc.find("rep0r") != std::string::npos ||
         desc.find("bkrep0r{") != std::string::npos)
         vf::klass("a loop with count 0");
